@@ -67,6 +67,9 @@ func workloads(nosync bool) []Workload {
 		{"W-f: leveled compaction, history ends right after a partial compaction (four rounds)", lv, alpha, []string{"B0", "M", "P", "B2", "M", "P", "B0", "M", "P", "B2", "M", "P"}},
 		{"W-h: forced compaction, second round deletes everything (the new file holds a footer only)", c(2), alpha, []string{"B0", "M", "P", "B5", "M", "P", "B3", "M", "P"}},
 		{"W-g: leveled compaction, partial compaction in the fifth round", lv, alpha, []string{"B0", "M", "P", "B2", "M", "P", "B0", "M", "P", "B0", "M", "P", "B1", "M", "P"}},
+		// the store is closed and opened again before the compactions: the data file was not started by this Store value
+		{"W-i: one round, clean close + reopen, then forced full compaction in every round", c(2), alpha, []string{"B0", "M", "P", "R", "B1", "M", "P", "B3", "M", "P"}},
+		{"W-j: a large first round, clean close + reopen, then leveled compaction (append, partial compaction)", lv, alpha, []string{"B2", "M", "P", "R", "B0", "M", "P", "B3", "M", "P", "B0", "M", "P"}},
 	}
 }
 
